@@ -3,7 +3,7 @@
 # (demo passes on original, fails on changed; full repository test suite passes with the change), then store it
 # under /verif/seeded/<PROP>_<X>/ with meta.json.
 id=$1; x=$2
-src=/tmp/seed_out/$id
+src=${SRC:-/tmp/seed_out}/$id
 wt=/tmp/confwt_${id}_${x}_$$
 dst=/verif/seeded/${id}_${x}
 git -C /repo worktree add --detach $wt HEAD >/dev/null 2>&1 || exit 3
@@ -23,12 +23,12 @@ if [ $ok = yes ]; then
   cp /tmp/conf_${id}_${x}.diff $dst/patch.diff
   cp $src/${x}_demo.py $dst/demo.py
   cp $src/${x}_notes.txt $dst/notes.txt 2>/dev/null
-  /venv/bin/python - "$id" "$x" "$rc_orig" "$rc_mut" "$tests" <<'PY'
+  /venv/bin/python - "$id" "$x" "$rc_orig" "$rc_mut" "$tests" "$src" <<'PY'
 import sys, json
-id, x, ro, rm, tests = sys.argv[1:6]
+id, x, ro, rm, tests, src = sys.argv[1:7]
 json.dump({
  'property': id, 'variant': x,
- 'needs_to_manifest': open('/tmp/seed_out/%s/%s_notes.txt' % (id, x)).read()[:3000],
+ 'needs_to_manifest': open('%s/%s_notes.txt' % (src, x)).read()[:3000],
  'confirmed': {'demo_exit_on_original': int(ro), 'demo_exit_on_changed': int(rm), 'repo_test_suite_with_change': tests,
                'how': 'tools/confirm_seed.sh: scratch worktree of /repo HEAD under /tmp, demo.py run before/after git apply, serial pytest full suite'},
  'detected_by': None,
